@@ -30,6 +30,15 @@ def scenarios(t):
                     i += 1
                     sc.append({"id": "enc%d" % i, "kind": "write", "what": "encode", "fe": fe, "declared": False, "start": 0, "frames": frames, "tail": tail,
                                "flush": bool(i % 2), "opts": {"block_size": 16, "padding": 40 if (i % 3) else -1, "seektable": st}})
+    # one large write (several blocks; 65536 and more PCM frames: more than a frame can hold) that fails somewhere, after which the caller
+    # still finalizes - explicitly or by dropping the writer: neither may panic
+    for fe in ("byte-le", "sample", "channel"):
+        for big, bs in ((65536, 4096), (65537, 65535), (70000, 4096), (140000, 65535), (5000, 16)):
+            for explicit in (True, False):
+                i += 1
+                sc.append({"id": "encbig%d" % i, "kind": "write", "what": "encode", "fe": fe, "declared": False, "start": 0, "big": big,
+                           "explicit_finalize": explicit, "max_n": 60,
+                           "opts": {"block_size": bs, "padding": -1, "seektable": "none" if i % 2 else {"frames": 1}, "max_lpc": -1}})
     sc.append({"id": "stream", "kind": "write", "what": "stream"})
     sc.append({"id": "write_blocks", "kind": "write", "what": "write_blocks"})
     for e in ("equal", "grow", "shrink", "rebuild", "rebuild-sinkfault"):
